@@ -71,7 +71,8 @@ IdsIn(S) == { r.id : r \in S } \cup {0}
 WinsIn(S) == { r.win : r \in S } \cup {0}
 SMCheck(e, postqs, postcl, postidx) ==
   \* replay of a model behaviour: the model had this action enabled, so the real chain accepts it
-  (IF "sm" \in DOMAIN e /\ ~e.ok THEN {"MODEL:EnabledActionRejected"} ELSE {}) \cup
+  (IF "sm" \in DOMAIN e /\ e.sm /\ ~e.ok THEN {"MODEL:EnabledActionRejected"} ELSE {}) \cup
+  (IF "sm" \in DOMAIN e /\ ~e.sm /\ e.ok THEN {"MODEL:DisabledActionAccepted"} ELSE {}) \cup
   IF e.ev = "Tip" THEN
      (IF e.ok THEN (IF \E id \in IdsIn(postqs), w \in WinsIn(postqs) : postqs = TipNext(qs, e.h, e.q, e.amt, id, w) THEN {} ELSE {"MODEL:Tip"})
       ELSE (IF postqs = qs THEN {} ELSE {"MODEL:TipRejected"}))
